@@ -4,7 +4,7 @@
    consistent for ALL streams / tables / block sequences (no size bound). *)
 From Coq Require Import List ZArith Bool.
 From LJT Require Import model.T81Spec proofs.T81StuffProofs proofs.T81ParseProofs proofs.T81LenProofs
-  proofs.T81BlockProofs proofs.T81ScanProofs proofs.T81HuffProofs proofs.T81WriterProofs proofs.T81ParseInvProofs proofs.T81Examples.
+  proofs.T81BlockProofs proofs.T81ScanProofs proofs.T81HuffProofs proofs.T81WriterProofs proofs.T81WrittenProofs proofs.T81ParseInvProofs proofs.T81Examples.
 Import ListNotations.
 Local Open Scope Z_scope.
 
@@ -33,15 +33,25 @@ Theorem C04_writer_sound : forall ch im s bytes,
 Proof. exact writer_sound. Qed.
 Print Assumptions C04_writer_sound.
 
-(* full clause (not proved): `written` equals the real blocks of the image arrays; needs
-   uniqueness/completeness of the A.2.3/A.2.4 block positions; covered by the Examples below
-   and by the correspondence in both directions *)
+(* (1b') what the writer recorded, hence what the decoder returns, ARE blocks of the image:
+   component i has the A.1.1 dimensions and its block at (r, c) is the zig-zag round trip of
+   the image block of component i at index r * pw + c (pw = width of the block array the
+   component has in its scan); on 64-element blocks the round trip is the identity *)
+Theorem C04_written_is_image : forall ch im arrays, written ch im = Some arrays ->
+  Forall2 (fun (ic : nat * fcomp) (a : comp_coefs) => let '(i, (_, h, v, _)) := ic in comp_written im i a h v)
+          (combine (seq 0 (length (im_comps im))) (im_comps im)) arrays.
+Proof. exact written_is_image. Qed.
+Print Assumptions C04_written_is_image.
+
+Theorem C04_zigzag_roundtrip : forall b, length b = 64%nat -> to_natural (to_zigzag b) = b.
+Proof. exact natural_zigzag_id. Qed.
+Print Assumptions C04_zigzag_roundtrip.
+
+(* remaining gap of the full clause: that decoding an emitted valid stream never fails
+   (completeness of the A.2.3/A.2.4 block positions) and that pw is the same for all blocks of
+   a component; both are exercised by the Examples below and the (<-) correspondence *)
 Definition C04_writer_sound_full : Prop := forall ch im s,
-  im_ok im -> layout ch im = Some s -> stream_ok s = true ->
-  exists arrays, t81_decode s = Some arrays /\
-    forall i wb hb bl r c, nth_error arrays i = Some (wb, hb, bl) -> 0 <= r < hb -> 0 <= c < wb ->
-      exists pw, nth (Z.to_nat (r * wb + c)) bl [] =
-                 to_natural (to_zigzag (nth (Z.to_nat (r * pw + c)) (nth i (im_coefs im) []) [])).
+  im_ok im -> layout ch im = Some s -> stream_ok s = true -> exists arrays, t81_decode s = Some arrays.
 
 (* (2) B.1.1.5 byte stuffing, all byte lists *)
 Theorem C04_stuffing : forall d,
